@@ -321,4 +321,7 @@ def run(ck, tier):
     _slf(ck, cx, 'R11', ['WriteMultipleCoilsRequest', 'WriteMultipleRegistersRequest', 'WriteSingleCoilRequest', 'WriteSingleRegisterRequest', 'MaskWriteRegisterRequest', 'ReadWriteMultipleRegistersRequest'], 'a write then changes other cells than the addressed ones, or answers normally for a request the spec refuses', rules=('R3',))
     from .. import options as _opt
     ck.guard(_opt.rule_options_read_at_construction, ck, cx, 'R12', ('pymodbus.datastore.context', 'pymodbus.datastore.store'), ('ZeroMode',), 'contexts address their blocks one off from the configured mode: reads and writes land on the neighbouring cell')
+    from ..share import import_findings as _imp4
+    ck.rule('R14', 'the register file the requests see is the context the application handed to the server: `context or default` is sound only while ModbusServerContext defines neither __len__ nor __bool__ (shared with C10 R7)')
+    _imp4(ck, 'C10', 'R14', ('R7',), 'requests are executed against a private default context: writes never reach the application datastore and reads do not come from it')
     return cx.idx
